@@ -56,6 +56,19 @@ Section Vars.
         let l' := if length l =? nvars then fill_ranges zero n cum l else l in
         if length l' =? n then Some l' else None
     end.
+
+  (* ---- "Calculate and save sensitivities" of MMA.response, for one response:
+         sens_list = []
+         for v in self.variables: sens_list.append(v.sensitivity if v.sensitivity is not None else 0*v.state)
+         dff, _ = _concatenate_to_array(sens_list)
+     The row handed to mmasub is built afresh in every iteration from what the variable signals hold NOW: a signal
+     without a sensitivity (None) contributes 0*state, nothing survives from earlier iterations.
+     `zmul a` stands for 0*a. *)
+  Definition smap (f : A -> A) (v : sval) : sval := match v with Scal a => Scal (f a) | Arr l => Arr (map f l) end.
+  Definition sens_item (zmul : A -> A) (state : sval) (sens : option sval) : sval :=
+    match sens with Some g => g | None => smap zmul state end.
+  Definition sens_row (zmul : A -> A) (states : list sval) (sens : list (option sval)) : list A :=
+    fst (concat_to_array (map (fun p => sens_item zmul (fst p) (snd p)) (combine states sens))).
 End Vars.
 
 Arguments sval A : clear implicits.
